@@ -7,6 +7,7 @@ Ops (one per line):
   updvo ids=s1|s2 vo=C signers=A
   migrate from=A to=B signers=A
   send from=A to=B ids=s1|s2                      (bank MsgSend signed by `from`)
+  mwithdraw marker=MR admin=A to=B ids=s1         (marker MsgWithdraw signed by `admin`)
   grant granter=A grantee=B mt=write count=0      (count 0 = generic authorization)
   revoke granter=A grantee=B mt=write
   access marker=MR addr=A perms=withdraw|deposit  (perms=- : none)
@@ -105,6 +106,8 @@ def parseOp (ws : List String) : Option Op :=
   | "migrate" :: rest => do
     pure (.migrate (← addrArg rest "from") (← addrArg rest "to") (splitList (← kv rest "signers")))
   | "send" :: rest => do pure (.send (← kv rest "from") (← kv rest "to") (splitList (← kv rest "ids")))
+  | "mwithdraw" :: rest => do
+    pure (.mwithdraw (← kv rest "marker") (← kv rest "admin") (← kv rest "to") (splitList (← kv rest "ids")))
   | "grant" :: rest => do
     pure (.grant (← kv rest "granter") (← kv rest "grantee") (← (kv rest "mt") >>= MsgType.ofString?)
       (← (kv rest "count") >>= parseNat?))
@@ -117,6 +120,7 @@ def parseOp (ws : List String) : Option Op :=
 def kindName : StepKind → String
   | .msg mt => mt.toString
   | .send => "send"
+  | .mwithdraw => "mwithdraw"
   | .env => "env"
 
 structure DState where
